@@ -128,6 +128,29 @@ chk(
     "Trusted: one logical clock (itertools.count) for all stamps; scripted emitters.",
 )
 
+chk(
+    "C01", "wdverif/props/c01.py",
+    "replay oracle over the delivered event stream of generated, paced operation histories on the real kernel (plain / small reads / slow reader via sys.monitoring delays)",
+    "Exploration: random operation histories (8-30 operations incl. nested bursts, rename chains, replace, move out, move in of "
+    "trees; names {a,b,c}, depth<=3) that respect the directory pacing condition are executed on a scratch directory watched by a real "
+    "InotifyObserver (recursive/non-recursive, normal/full emitter, str/bytes, absolute/relative/trailing-slash root); at every drain "
+    "(sentinel event reached the handler) the created/deleted/moved events delivered so far are replayed onto the initial tree and "
+    "compared with os.walk. Modes: plain, 300-byte reads (kernel batches split, cross-batch rename pairing), random delays at "
+    "Inotify.read_events (operator far ahead of the reader).",
+    "Trusted: replay semantics (DESIGN section 3/C01), the pacing tracker (literal reading of the condition), the sentinel drain. The "
+    "kernel is the real one: sequences it does not produce here are not explored; IN_Q_OVERFLOW is kept from happening.",
+)
+
+chk(
+    "C02", "wdverif/props/c02.py",
+    "probe oracle: a probe file created in every existing directory at quiescent points of generated histories must be reported under exactly its real path",
+    "Exploration: the C01 engine biased to directory building/reshaping plus a regression corpus (witnesses of F5/F7/F8); at the end "
+    "and at random intermediate drains one probe per existing directory (every directory of the tree, as the quantifier demands) is "
+    "created and must appear as a non-synthetic FileCreatedEvent with src_path equal to the root as given joined with the real "
+    "relative name; non-recursive: probes below a child directory must never be reported.",
+    "Trusted: as C01. A directory that is watched with a mask lacking a bit would still answer a create probe (C11's subject).",
+)
+
 _PENDING = "check not built yet in this round of work (planned in DESIGN.md section 3); not claimed until its monitor exists"
 _built = {c["id"] for c in CHECKS}
 for n in range(1, 21):
